@@ -2,6 +2,8 @@ import Goyang.Lemmas.IncludeMain
 import Goyang.Lemmas.IncludeDump
 import Goyang.Lemmas.IncludeCheck
 import Goyang.Model.TypesLite
+import Goyang.Lemmas.IncludeAugK
+import Goyang.Lemmas.IncludeAugOrder
 /-
 C13, third sentence — "An included submodule contributes its data nodes, typedefs, groupings and
 identities to the including module exactly as if they were written there."
@@ -40,8 +42,48 @@ What is proved, for all such registries, every option set and plug:
 * the stages behind them, as statements of their own: `context_independence` (a), `grouping_found_same`
   (b), `parts_merge_each_submodule_once` (c).
 
+Sets WITH augment statements (this round):
+
+* `include_eq_inline_fails` — **the full statement `IncludeEqInline` is FALSE** of the model and of the Go
+  code (finding D67, witness in /verif/corpus/C13/D67-witness.txt, replayed on both): two modules `ma`,
+  `mb` augment the implied case of a shorthand choice member of `t` in a chain (`/t:ch/t:x`, then
+  `/t:ch/t:x/ma:y`); neither is applicable before FixChoice, both are applied by the single leftover pass
+  `Augment(true)`, in the order swap-remove left the module array in.  Splitting an augment-free
+  submodule `a-sub` off `t` permutes that order ([ma, mb] becomes [mb, ma]): the unsplit set processes
+  without errors, the split set reports `augment-not-found`.  Kernel-checked on the model
+  (`Ex3.unsplit_clean`, `Ex3.split_errors`), all hypotheses of `IsSplitOf` discharged.
+* `IncludeEqInlineAugments` — the corrected statement: no deviation statements, and the augment loop of
+  the unsplit set leaves nothing pending (`NoLeftover`, decidable: the excluded inputs are exactly those
+  whose augments wait for the leftover pass, the case C07 leaves outside its claim).  NOT proved in
+  general; kernel-checked on `Ex4` (`include_eq_inline_augments_example`: two modules augment, in a
+  chain, a container that the split moves into a submodule; the loop of the split set visits the
+  modules in another order and needs a second pass).  Proved towards it, for all split pairs:
+  - `include_pending_rows` — at the start of the augment stage the submodules have nothing pending and
+    every other row lists the augment statements of the same module (the owner's: the unsplit module's);
+  - `include_augment_loop_order` + `include_augment_loop_clean_iff` — missing item (1) below, closed on
+    the flat view: the loop over the split set may be run in the module order of the UNSPLIT set (the
+    additional trees only permute the visits): same flat view (C07: locations with their data, children
+    as sets), same augments left over, and the one run is error free iff the other is
+    (hypotheses on `R'`: C07's decidable input predicates `LoadedShape`, `AugPosDistinct`, `AugArgsPlain`);
+  - `no_leftover_result` — with nothing left over (and no deviation statements) `processAll` returns the
+    loop's forest with `fixChoice` applied to every tree, errors = those recorded in it.
+  Still missing for `IncludeEqInlineAugments`: (A) the pending ENTRIES of the owner's row equal the
+  unsplit module's up to `ren σ` (`context_independence` gives it per statement; the module-level
+  conversion proof `IncludeMod`/`IncludeAsm` ignores `TState.augs`); (S) the lockstep simulation of the two
+  loops in the SAME module order on forests related by `ren σ` / `SameTop` (`find` through `child?_sameTop`,
+  `merge`/`updateAt` under `ren`); (E) the canonical dump as a function of the flat view (children
+  sorted, `NoDupNames`), to pass from `include_augment_loop_order`'s view equality to `dumpOf`.
+
+Replay of the D67 witness (the texts are in the corpus file; both programs lived in /tmp):
+Go side — `ms := yang.NewModules(); ms.Parse(text, name)` for every file in the order given, `ms.Process()`:
+unsplit `[]`, split `[mb.yang:1:92: augment /t:ch/t:x/ma:y not found]`.  Model side —
+`lib.WireFiles(names, texts)` sent as `process 0 0 <wire>` to `.lake/build/bin/drv_res`: unsplit a dump
+without `E` record (nodes `/t/ch/x/x`, `/t/ch/x/y` ns=urn:ma, `/t/ch/x/y/z` ns=urn:mb, `/t/keep/k`), split
+`E mb.yang:1:92:augment-not-found`.
+
 `IncludeEqInline` is the full statement (any registry, canonical dumps as the runner compares
-them); see the note at its definition for what is missing.
+them) — false as it stands, see above; the note at its definition lists what is missing for the
+corrected one.
 -/
 namespace Goyang.Props.C13Include
 open Goyang.Model Goyang.Spec.Include Goyang.Spec.Uses Goyang.Lemmas.Tree
@@ -67,24 +109,30 @@ theorem include_conversion (s : Split) (R R' : Registry) (opts : Opts) (plug plu
 
 /-! ### `Modules.Process` -/
 
-/-- **The full statement** (not proved in this generality): for every pair of registries related by
-a split — any other modules, with their own submodules, augments and deviations, nested includes
-among the parts — a clean `Process` of the unsplit set implies a clean `Process` of the split set
-and equal canonical dumps (children in name order at every level; kind, config, type, defaults,
-constraints, namespace, read-only, instantiating module) of the split module.
+/-- **The full statement** — FALSE as it stands (`include_eq_inline_fails`, finding D67): for every pair of
+registries related by a split — any other modules, augments and deviations, nested includes among the
+parts — a clean `Process` of the unsplit set implies a clean `Process` of the split set and equal
+canonical dumps (children in name order at every level; kind, config, type, defaults, constraints,
+namespace, read-only, instantiating module) of the split module.  It fails when augments wait for the
+leftover pass after FixChoice (targets in implied cases, chained across modules): that pass is one sweep
+in the order swap-remove left the module array in, and the additional submodule trees permute it.
 
-Proved below: `include_eq_inline_noaug` (this very statement), `include_eq_inline_partial` +
-`include_paths` (no augment/deviation statements in the set; `R` without submodules) and `include_conversion` (conversion stage, augments and deviations allowed).  Missing for
-the full statement: (1) the augment loop of `Process`
+Proved below: `include_eq_inline_noaug` (this very statement for sets without augment and deviation
+statements), `include_eq_inline_partial` + `include_paths` (the same sets; `R` without submodules),
+`include_conversion` (conversion stage, augments and deviations allowed), and for sets with augments
+`include_pending_rows`, `include_augment_loop_order`, `include_augment_loop_clean_iff`, `no_leftover_result`.
+The corrected statement is `IncludeEqInlineAugments`.  What is missing for it: (1) the augment loop
 visits the trees in an order that the additional (augment-free) submodule trees change (swap-remove
-over the module array), so children grafted by different modules into one node can arrive in
-another order: needs C07's order independence at every level, i.e. `List.Perm` of `dir` recursively
-instead of at the root only; (2) augments and deviations that target nodes of the split module go
-through `Entry.Find` by name, which is insensitive to the order (`find?_perm`), but the induction
-over the augment loop on two forests has not been done; (3) nested includes among the parts: the
-(nested includes among the parts ARE covered: `parts_merge_each_submodule_once`); (4) other modules of `R` with submodules
-of their own (their include steps run in lockstep in both registries; not done).  The metamorphic
-runner harness/cmd/corr-c13c checks the full statement on both sides. -/
+over the module array), so children grafted by different modules into one node can arrive in another
+order — CLOSED on the flat view by `include_augment_loop_order` (C07's order independence); what remains
+is (A) the pending entries of the owner's row equal the unsplit module's up to `ren σ`, (S) the lockstep
+simulation of the two loops in the same module order on forests related by `ren σ` / `SameTop` (targets go
+through `Entry.Find` by name, insensitive to the order: `child?_sameTop`), (E) the canonical dump as a
+function of the flat view; (3) nested includes among the parts ARE covered
+(`parts_merge_each_submodule_once`); (4) other modules of `R` with submodules of their own (their include
+steps run in lockstep in both registries; not done); deviations (after the augment stage: `find` on
+related forests, as (S)).  The metamorphic runner harness/cmd/corr-c13c checks the full statement on both
+sides and carries the D67 witness as a known finding. -/
 def IncludeEqInline (s : Split) (R R' : Registry) (opts : Opts) (plug plug' : Plug) : Prop :=
   (processAll R opts plug).errors = [] →
     (processAll R' opts plug').errors = [] ∧
@@ -124,6 +172,66 @@ path) is the dump of the unsplit module's tree. -/
 theorem include_eq_inline_noaug (s : Split) (R R' : Registry) (opts : Opts) (plug plug' : Plug)
     (h : IsSplitOf s R R' plug plug') (hna : NoAugDev R) : IncludeEqInline s R R' opts plug plug' :=
   fun hclean => ⟨(process_split opts plug plug' h hna hclean).1, Lemmas.IncludeDump.dumpOf_split opts plug plug' h hna hclean⟩
+
+/-! ### sets with augment statements -/
+
+/-- **The corrected statement for sets with augments** (not proved in general; kernel-checked on `Ex4`,
+refuted without the second hypothesis by `include_eq_inline_fails`): no deviation statement in the set,
+and the augment loop of the unsplit set leaves no augment pending (`NoLeftover`: decidable by running
+the loop; it excludes exactly the augments that wait for the leftover pass after FixChoice — targets in
+the implied case of a shorthand choice member — which C07 leaves outside its claim). -/
+def IncludeEqInlineAugments (s : Split) (R R' : Registry) (opts : Opts) (plug plug' : Plug) : Prop :=
+  (∀ x ∈ R.mods, x.stmt.all "deviation" = []) → Lemmas.IncludeAugOrder.NoLeftover R opts plug →
+    IncludeEqInline s R R' opts plug plug'
+
+/-- **include_pending_rows.**  What the split set hands to the augment loop: a submodule of the split has
+nothing pending (augment statements stay with the owner); the row of every module `x` of the unsplit
+set is empty or lists — one entry per statement, in written order — the augment statements of `x`
+(for the owner: those of the unsplit module `m`). -/
+theorem include_pending_rows (s : Split) (R R' : Registry) (opts : Opts) (plug plug' : Plug)
+    (h : IsSplitOf s R R' plug plug') :
+    (∀ sb ∈ s.subs, (pstate0 R' opts plug').pendingOf sb.seq = []) ∧
+    (∀ x ∈ R.mods, (pstate0 R' opts plug').pendingOf x.seq = [] ∨
+      ((pstate0 R' opts plug').pendingOf x.seq).map (·.d.node) = x.stmt.all "augment") :=
+  ⟨fun _ hsb => Lemmas.IncludeAugOrder.pending_sub_nil opts plug plug' h hsb,
+   fun _ hx => Lemmas.IncludeAugOrder.pending_stmts_split opts plug plug' h hx⟩
+
+/-- **include_augment_loop_order.**  The augment loop of `Process` over the split set (`afterLoop R'`: the
+module order of `R'`, which the augment-free submodule trees have changed through swap-remove) against
+the same loop run in the module order of the UNSPLIT set: when the former leaves no `duplicate-node`
+error, both end in the same flat view (C07: the same locations with the same data — children as sets)
+and leave the same augments pending.  `LoadedShape`, `AugPosDistinct`, `AugArgsPlain` are C07's decidable
+input predicates (distinct load numbers; augment statements of one module at different positions;
+augment arguments absolute schema node identifiers). -/
+theorem include_augment_loop_order (s : Split) (R R' : Registry) (opts : Opts) (plug plug' : Plug)
+    (h : IsSplitOf s R R' plug plug') (hL : Lemmas.Fuel.LoadedShape R') (hpos : Lemmas.Bridge.AugPosDistinct R')
+    (hplain : Lemmas.Bridge.AugArgsPlain R')
+    (hfree : ∀ er, Lemmas.AugmentStep.FVisErr (afterLoop R' opts plug').2.forest er → er.cls ≠ "duplicate-node") :
+    Spec.Augment.viewOf (augmentLoop R' (Lemmas.IncludeAugOrder.loopFuel R' opts plug') ((augOrder R).map (·.seq)).toArray
+        (pstate0 R' opts plug')).2.forest = Spec.Augment.viewOf (afterLoop R' opts plug').2.forest ∧
+    (∀ id a, a ∈ (augmentLoop R' (Lemmas.IncludeAugOrder.loopFuel R' opts plug') ((augOrder R).map (·.seq)).toArray
+        (pstate0 R' opts plug')).2.pendingOf id ↔ a ∈ (afterLoop R' opts plug').2.pendingOf id) :=
+  Lemmas.IncludeAugOrder.split_loop_in_unsplit_order opts plug plug' h hL hpos hplain hfree
+
+/-- **include_augment_loop_clean_iff.**  … and the loop over the split set ends without recorded errors
+in its own module order iff it does in the module order of the unsplit set. -/
+theorem include_augment_loop_clean_iff (s : Split) (R R' : Registry) (opts : Opts) (plug plug' : Plug)
+    (h : IsSplitOf s R R' plug plug') (hL : Lemmas.Fuel.LoadedShape R') (hpos : Lemmas.Bridge.AugPosDistinct R')
+    (hplain : Lemmas.Bridge.AugArgsPlain R') (h0 : forestErrs (forest0 R' opts plug') = []) :
+    Lemmas.AugmentReport.allErrs (afterLoop R' opts plug').2.forest = [] ↔
+      Lemmas.AugmentReport.allErrs (augmentLoop R' (Lemmas.IncludeAugOrder.loopFuel R' opts plug')
+        ((augOrder R).map (·.seq)).toArray (pstate0 R' opts plug')).2.forest = [] :=
+  Lemmas.IncludeAugOrder.split_loop_clean_iff opts plug plug' h hL hpos hplain h0
+
+/-- **no_leftover_result.**  Any registry without deviation statements whose loop leaves nothing pending,
+first two stages clean: the leftover pass and the second FixChoice do nothing — `processAll` returns the
+loop's forest with `fixChoice` applied to every tree, and the errors recorded in it. -/
+theorem no_leftover_result (reg : Registry) (opts : Opts) (plug : Plug)
+    (hn : Lemmas.IncludeAugOrder.NoLeftover reg opts plug) (hdev : ∀ x ∈ reg.mods, x.stmt.all "deviation" = [])
+    (h1 : stage1Errs reg plug = []) (h2 : forestErrs (forest0 reg opts plug) = []) :
+    (processAll reg opts plug).errors = canonErrs (forestErrs (fixAll (afterLoop reg opts plug).2).forest) ∧
+    (processAll reg opts plug).forest = (fixAll (afterLoop reg opts plug).2).forest :=
+  Lemmas.IncludeAugOrder.processAll_noLeftover reg opts plug hn hdev h1 h2
 
 /-- **visible_when_grouping_names_distinct.**  The visibility condition is automatic when the
 top-level grouping names of `m` are pairwise distinct (RFC 7950 requires it; goyang does not check):
@@ -593,5 +701,351 @@ theorem nested_result :
     (processAll R2 {} plug).errors = [] ∧ dumpOf (processAll R2 {} plug) o = dumpOf (processAll R {} plug) m :=
   include_eq_inline_noaug sp2 R R2 {} plug plug isSplit2 noAugDev unsplit_clean
 end Ex2
+
+
+/-! ### the full statement fails: finding D67 (witness replayed on the Go code and on the model)
+
+```
+module ma { … import t …; augment "/t:ch/t:x" { container y { } } }
+module mb { … import t …; import ma …; augment "/t:ch/t:x/ma:y" { leaf z { type string; } } }
+module t  { … choice ch { leaf x { type string; } } container keep { leaf k { type string; } } }
+      ~>   module t { … include a-sub; choice ch { leaf x { … } } }
+           submodule a-sub { belongs-to t { prefix t; } container keep { leaf k { … } } }
+```
+`/t:ch/t:x` is the leaf `x` until FixChoice wraps it into the implied case `x`: neither augment is
+applicable in the loop, both are applied by the leftover pass — unsplit in the order [ma, mb] (clean),
+split in the order [mb, ma] (swap-remove of `a-sub`, then of `t`): `mb`'s target does not exist yet. -/
+namespace Ex3
+open Ex (st plug)
+def ty (f : String) (l c : Nat) : Stmt := st f "type" "string" l c []
+def nsT : Stmt := st "t" "namespace" "urn:t" 1 12 []
+def pfT : Stmt := st "t" "prefix" "t" 1 30 []
+def imp (f m : String) (c : Nat) : Stmt := st f "import" m 1 c [st f "prefix" m 1 (c + 10) []]
+def augA : Stmt := st "ma" "augment" "/t:ch/t:x" 1 70 [st "ma" "container" "y" 1 92 []]
+def maS : Stmt := st "ma" "module" "ma" 1 1 [st "ma" "namespace" "urn:ma" 1 12 [], st "ma" "prefix" "ma" 1 30 [], imp "ma" "t" 40, augA]
+def augB : Stmt := st "mb" "augment" "/t:ch/t:x/ma:y" 1 92 [st "mb" "leaf" "z" 1 120 [ty "mb" 1 130]]
+def mbS : Stmt :=
+  st "mb" "module" "mb" 1 1 [st "mb" "namespace" "urn:mb" 1 12 [], st "mb" "prefix" "mb" 1 30 [], imp "mb" "t" 40, imp "mb" "ma" 60, augB]
+def chS : Stmt := st "t" "choice" "ch" 1 40 [st "t" "leaf" "x" 1 52 [ty "t" 1 61]]
+def keepS : Stmt := st "t" "container" "keep" 1 80 [st "t" "leaf" "k" 1 97 [ty "t" 1 106]]
+def tS : Stmt := st "t" "module" "t" 1 1 [nsT, pfT, chS, keepS]
+def incS : Stmt := st "o" "include" "a-sub" 1 35 []
+def oS : Stmt := st "o" "module" "t" 1 1 [nsT, pfT, incS, chS]
+def btS : Stmt := st "a-sub" "belongs-to" "t" 1 20 [pfT]
+def subS : Stmt := st "a-sub" "submodule" "a-sub" 1 1 [btS, keepS]
+def ma : Mod := { seq := 0, stmt := maS }
+def mb : Mod := { seq := 1, stmt := mbS }
+def t : Mod := { seq := 2, stmt := tS }
+def o : Mod := { seq := 2, stmt := oS }
+def sub : Mod := { seq := 3, stmt := subS }
+def R : Registry := (Registry.loadAll [maS, mbS, tS]).1
+def R' : Registry := (Registry.loadAll [maS, mbS, oS, subS]).1
+def sp : Split := { m := t, owner := o, subs := [sub] }
+
+theorem R_mods : R.mods = [ma, mb, t] := rfl
+theorem R'_mods : R'.mods = [ma, mb, o, sub] := rfl
+theorem mem_subs {sb : Mod} (h : sb ∈ sp.subs) : sb = sub := by simpa [sp] using h
+theorem mem_R {x : Mod} (h : x ∈ R.mods) : x = ma ∨ x = mb ∨ x = t := by rw [R_mods] at h; simpa using h
+theorem mem_parts {P : Mod} (h : P ∈ sp.parts) : P = o ∨ P = sub := by simpa [sp, Split.parts] using h
+
+theorem textOK : TextOK sp where
+  m_kw := rfl
+  owner_kw := rfl
+  owner_arg := rfl
+  m_no_include := rfl
+  m_no_belongs := rfl
+  kept := by
+    intro kw hkw
+    simp only [keptKws, List.mem_cons, List.mem_nil_iff, or_false] at hkw
+    rcases hkw with rfl | rfl | rfl | rfl | rfl | rfl | rfl | rfl <;> rfl
+  sub_kw := by intro sb hsb; rw [mem_subs hsb]; rfl
+  sub_belongs := by intro sb hsb; rw [mem_subs hsb]; rfl
+  sub_prefix := by intro sb hsb; rw [mem_subs hsb]; rfl
+  sub_imports := by intro sb hsb; rw [mem_subs hsb]; rfl
+  sub_no_aug := by intro sb hsb; rw [mem_subs hsb]; exact ⟨rfl, rfl, rfl⟩
+  body := by
+    intro kw hkw
+    simp only [bodyKws, List.mem_cons, List.mem_nil_iff, or_false] at hkw
+    rcases hkw with rfl | rfl | rfl | rfl | rfl | rfl | rfl | rfl | rfl | rfl | rfl <;> exact List.Perm.refl _
+
+theorem includes3 {P Q : Mod} (hP : P ∈ sp.parts) (h : Includes R' P Q) : P = o ∧ Q = sub := by
+  obtain ⟨a, ha, hf⟩ := h
+  rcases mem_parts hP with rfl | rfl
+  · have : a = incS := by
+      have h : a ∈ [incS] := ha
+      simpa using h
+    subst this
+    have h2 : R'.findModule true incS = some sub := rfl
+    rw [h2] at hf
+    exact ⟨rfl, (Option.some.inj hf).symm⟩
+  · have h : a ∈ ([] : List Stmt) := ha
+    cases h
+
+theorem regsOK : RegsOK sp R R' where
+  m_mem := by rw [R_mods]; simp [sp]
+  owner_seq := rfl
+  seqs_nodup := by decide +kernel
+  sub_seqs_fresh := by
+    intro sb hsb x hx
+    rw [mem_subs hsb]
+    rcases mem_R hx with rfl | rfl | rfl <;> decide
+  sub_seqs_nodup := by decide
+  sub_names_nodup := by decide
+  mods' := rfl
+  modules' := rfl
+  subModules := rfl
+  subModules' := rfl
+  R_modules_only := by
+    intro x hx
+    rcases mem_R hx with rfl | rfl | rfl <;> exact ⟨rfl, rfl, rfl⟩
+  keys_valid := by
+    intro kv hkv
+    have h : R.modules = [("ma", 0), ("mb", 1), ("t", 2)] := rfl
+    rw [h] at hkv
+    simp only [List.mem_cons, List.mem_nil_iff, or_false] at hkv
+    rcases hkv with rfl | rfl | rfl
+    · exact ⟨ma, by rw [R_mods]; simp, rfl⟩
+    · exact ⟨mb, by rw [R_mods]; simp, rfl⟩
+    · exact ⟨t, by rw [R_mods]; simp, rfl⟩
+  m_bound := rfl
+  sub_name_ne := by intro sb hsb; rw [mem_subs hsb]; decide
+  inc_resolve := by
+    intro P hP a ha
+    rcases mem_parts hP with rfl | rfl
+    · have : a = incS := by
+        have h : a ∈ [incS] := ha
+        simpa using h
+      subst this
+      exact ⟨sub, by simp [sp], rfl⟩
+    · have h : a ∈ ([] : List Stmt) := ha
+      cases h
+  inc_cover := by
+    intro sb hsb
+    rw [mem_subs hsb]
+    exact .step (.refl _) ⟨incS, (by show incS ∈ [incS]; simp), rfl⟩
+  inc_no_back := by
+    intro P hP Q hQ hinc
+    have hne : sub ≠ o := fun e => absurd (congrArg (·.seq) e) (by decide)
+    obtain ⟨rfl, rfl⟩ := includes3 hP hinc
+    refine ⟨hne, fun hb => ?_⟩
+    exact hne (includes3 hQ hb).1
+  keys_inj := by decide +kernel
+
+theorem visible : Visible sp R' (linkAll R').1 := by
+  intro P hP g hg
+  have h : g ∈ ([] : List Stmt) := hg
+  cases h
+
+theorem isSplit : IsSplitOf sp R R' plug plug where
+  text := textOK
+  regs := regsOK
+  visible := visible
+  plugOK := ⟨fun _ => rfl, fun _ => rfl, fun _ _ _ _ => rfl, fun _ _ _ _ _ => rfl⟩
+  pos := Lemmas.IncludeCheck.posWF_of_check R (by decide +kernel)
+  pos' := Lemmas.IncludeCheck.posWF_of_check R' (by decide +kernel)
+  refs := Lemmas.IncludeCheck.refsWF_of_check R (by decide +kernel)
+  refs' := Lemmas.IncludeCheck.refsWF_of_check R' (by decide +kernel)
+  fuel := Lemmas.IncludeCheck.lookupFuelOK_of_check R (by decide +kernel)
+  fuel' := Lemmas.IncludeCheck.lookupFuelOK_of_check R' (by decide +kernel)
+
+open Goyang.Lemmas.IncludeAugK in
+theorem unsplit_clean : (processAll R {} plug).errors = [] := by
+  rw [processAll_errors_K R {} plug (by decide +kernel) (by decide +kernel)]; decide +kernel
+
+open Goyang.Lemmas.IncludeAugK in
+theorem split_errors : (processAll R' {} plug).errors.map (·.cls) = ["augment-not-found"] := by
+  rw [processAll_errors_K R' {} plug (by decide +kernel) (by decide +kernel)]; decide +kernel
+end Ex3
+
+theorem include_eq_inline_fails :
+    ∃ (s : Split) (R R' : Registry) (plug : Plug), IsSplitOf s R R' plug plug ∧
+      (∀ x ∈ R.mods, x.stmt.all "deviation" = []) ∧ ¬ IncludeEqInline s R R' {} plug plug := by
+  refine ⟨Ex3.sp, Ex3.R, Ex3.R', Ex.plug, Ex3.isSplit, ?_, ?_⟩
+  · intro x hx
+    rcases Ex3.mem_R hx with rfl | rfl | rfl <;> rfl
+  · intro h
+    have h1 := (h Ex3.unsplit_clean).1
+    have h2 := Ex3.split_errors
+    rw [h1] at h2
+    cases h2
+
+/-! ### non-vacuity of `IncludeEqInlineAugments`: a chain of augments into a node the split moves
+
+As `Ex3`, but the augments target `/t:keep` (module `ma`) and `/t:keep/ma:y` (module `mb`): both are
+applied by the loop.  Unsplit: `ma` in the first pass, then `mb`.  Split: `a-sub` and `t` are swap-removed
+first, which brings `mb` before `ma`: `mb` fails in the first pass, `ma` is applied, `mb` in the second
+pass.  Everything is evaluated in the kernel (`Lemmas/IncludeAugK.lean`). -/
+namespace Ex4
+open Ex (st plug)
+def ty (f : String) (l c : Nat) : Stmt := st f "type" "string" l c []
+def nsT : Stmt := st "t" "namespace" "urn:t" 1 12 []
+def pfT : Stmt := st "t" "prefix" "t" 1 30 []
+def imp (f m : String) (c : Nat) : Stmt := st f "import" m 1 c [st f "prefix" m 1 (c + 10) []]
+def augA : Stmt := st "ma" "augment" "/t:keep" 1 70 [st "ma" "container" "y" 1 92 []]
+def maS : Stmt := st "ma" "module" "ma" 1 1 [st "ma" "namespace" "urn:ma" 1 12 [], st "ma" "prefix" "ma" 1 30 [], imp "ma" "t" 40, augA]
+def augB : Stmt := st "mb" "augment" "/t:keep/ma:y" 1 92 [st "mb" "leaf" "z" 1 120 [ty "mb" 1 130]]
+def mbS : Stmt :=
+  st "mb" "module" "mb" 1 1 [st "mb" "namespace" "urn:mb" 1 12 [], st "mb" "prefix" "mb" 1 30 [], imp "mb" "t" 40, imp "mb" "ma" 60, augB]
+def chS : Stmt := st "t" "choice" "ch" 1 40 [st "t" "leaf" "x" 1 52 [ty "t" 1 61]]
+def keepS : Stmt := st "t" "container" "keep" 1 80 [st "t" "leaf" "k" 1 97 [ty "t" 1 106]]
+def tS : Stmt := st "t" "module" "t" 1 1 [nsT, pfT, chS, keepS]
+def incS : Stmt := st "o" "include" "a-sub" 1 35 []
+def oS : Stmt := st "o" "module" "t" 1 1 [nsT, pfT, incS, chS]
+def btS : Stmt := st "a-sub" "belongs-to" "t" 1 20 [pfT]
+def subS : Stmt := st "a-sub" "submodule" "a-sub" 1 1 [btS, keepS]
+def ma : Mod := { seq := 0, stmt := maS }
+def mb : Mod := { seq := 1, stmt := mbS }
+def t : Mod := { seq := 2, stmt := tS }
+def o : Mod := { seq := 2, stmt := oS }
+def sub : Mod := { seq := 3, stmt := subS }
+def R : Registry := (Registry.loadAll [maS, mbS, tS]).1
+def R' : Registry := (Registry.loadAll [maS, mbS, oS, subS]).1
+def sp : Split := { m := t, owner := o, subs := [sub] }
+
+theorem R_mods : R.mods = [ma, mb, t] := rfl
+theorem R'_mods : R'.mods = [ma, mb, o, sub] := rfl
+theorem mem_subs {sb : Mod} (h : sb ∈ sp.subs) : sb = sub := by simpa [sp] using h
+theorem mem_R {x : Mod} (h : x ∈ R.mods) : x = ma ∨ x = mb ∨ x = t := by rw [R_mods] at h; simpa using h
+theorem mem_parts {P : Mod} (h : P ∈ sp.parts) : P = o ∨ P = sub := by simpa [sp, Split.parts] using h
+
+theorem textOK : TextOK sp where
+  m_kw := rfl
+  owner_kw := rfl
+  owner_arg := rfl
+  m_no_include := rfl
+  m_no_belongs := rfl
+  kept := by
+    intro kw hkw
+    simp only [keptKws, List.mem_cons, List.mem_nil_iff, or_false] at hkw
+    rcases hkw with rfl | rfl | rfl | rfl | rfl | rfl | rfl | rfl <;> rfl
+  sub_kw := by intro sb hsb; rw [mem_subs hsb]; rfl
+  sub_belongs := by intro sb hsb; rw [mem_subs hsb]; rfl
+  sub_prefix := by intro sb hsb; rw [mem_subs hsb]; rfl
+  sub_imports := by intro sb hsb; rw [mem_subs hsb]; rfl
+  sub_no_aug := by intro sb hsb; rw [mem_subs hsb]; exact ⟨rfl, rfl, rfl⟩
+  body := by
+    intro kw hkw
+    simp only [bodyKws, List.mem_cons, List.mem_nil_iff, or_false] at hkw
+    rcases hkw with rfl | rfl | rfl | rfl | rfl | rfl | rfl | rfl | rfl | rfl | rfl <;> exact List.Perm.refl _
+
+theorem includes3 {P Q : Mod} (hP : P ∈ sp.parts) (h : Includes R' P Q) : P = o ∧ Q = sub := by
+  obtain ⟨a, ha, hf⟩ := h
+  rcases mem_parts hP with rfl | rfl
+  · have : a = incS := by
+      have h : a ∈ [incS] := ha
+      simpa using h
+    subst this
+    have h2 : R'.findModule true incS = some sub := rfl
+    rw [h2] at hf
+    exact ⟨rfl, (Option.some.inj hf).symm⟩
+  · have h : a ∈ ([] : List Stmt) := ha
+    cases h
+
+theorem regsOK : RegsOK sp R R' where
+  m_mem := by rw [R_mods]; simp [sp]
+  owner_seq := rfl
+  seqs_nodup := by decide +kernel
+  sub_seqs_fresh := by
+    intro sb hsb x hx
+    rw [mem_subs hsb]
+    rcases mem_R hx with rfl | rfl | rfl <;> decide
+  sub_seqs_nodup := by decide
+  sub_names_nodup := by decide
+  mods' := rfl
+  modules' := rfl
+  subModules := rfl
+  subModules' := rfl
+  R_modules_only := by
+    intro x hx
+    rcases mem_R hx with rfl | rfl | rfl <;> exact ⟨rfl, rfl, rfl⟩
+  keys_valid := by
+    intro kv hkv
+    have h : R.modules = [("ma", 0), ("mb", 1), ("t", 2)] := rfl
+    rw [h] at hkv
+    simp only [List.mem_cons, List.mem_nil_iff, or_false] at hkv
+    rcases hkv with rfl | rfl | rfl
+    · exact ⟨ma, by rw [R_mods]; simp, rfl⟩
+    · exact ⟨mb, by rw [R_mods]; simp, rfl⟩
+    · exact ⟨t, by rw [R_mods]; simp, rfl⟩
+  m_bound := rfl
+  sub_name_ne := by intro sb hsb; rw [mem_subs hsb]; decide
+  inc_resolve := by
+    intro P hP a ha
+    rcases mem_parts hP with rfl | rfl
+    · have : a = incS := by
+        have h : a ∈ [incS] := ha
+        simpa using h
+      subst this
+      exact ⟨sub, by simp [sp], rfl⟩
+    · have h : a ∈ ([] : List Stmt) := ha
+      cases h
+  inc_cover := by
+    intro sb hsb
+    rw [mem_subs hsb]
+    exact .step (.refl _) ⟨incS, (by show incS ∈ [incS]; simp), rfl⟩
+  inc_no_back := by
+    intro P hP Q hQ hinc
+    have hne : sub ≠ o := fun e => absurd (congrArg (·.seq) e) (by decide)
+    obtain ⟨rfl, rfl⟩ := includes3 hP hinc
+    refine ⟨hne, fun hb => ?_⟩
+    exact hne (includes3 hQ hb).1
+  keys_inj := by decide +kernel
+
+theorem visible : Visible sp R' (linkAll R').1 := by
+  intro P hP g hg
+  have h : g ∈ ([] : List Stmt) := hg
+  cases h
+
+theorem isSplit : IsSplitOf sp R R' plug plug where
+  text := textOK
+  regs := regsOK
+  visible := visible
+  plugOK := ⟨fun _ => rfl, fun _ => rfl, fun _ _ _ _ => rfl, fun _ _ _ _ _ => rfl⟩
+  pos := Lemmas.IncludeCheck.posWF_of_check R (by decide +kernel)
+  pos' := Lemmas.IncludeCheck.posWF_of_check R' (by decide +kernel)
+  refs := Lemmas.IncludeCheck.refsWF_of_check R (by decide +kernel)
+  refs' := Lemmas.IncludeCheck.refsWF_of_check R' (by decide +kernel)
+  fuel := Lemmas.IncludeCheck.lookupFuelOK_of_check R (by decide +kernel)
+  fuel' := Lemmas.IncludeCheck.lookupFuelOK_of_check R' (by decide +kernel)
+
+open Goyang.Lemmas.IncludeAugK Goyang.Lemmas.IncludeAugOrder in
+theorem noLeftover : NoLeftover R {} plug := by
+  unfold NoLeftover; rw [afterLoop_eqK]; decide +kernel
+
+open Goyang.Lemmas.IncludeAugK in
+theorem unsplit_clean : (processAll R {} plug).errors = [] := by
+  rw [processAll_errors_K R {} plug (by decide +kernel) (by decide +kernel)]; decide +kernel
+
+open Goyang.Lemmas.IncludeAugK in
+theorem split_clean : (processAll R' {} plug).errors = [] := by
+  rw [processAll_errors_K R' {} plug (by decide +kernel) (by decide +kernel)]; decide +kernel
+
+open Goyang.Lemmas.IncludeAugK in
+theorem split_dump : dumpOf (processAll R' {} plug) o = dumpOf (processAll R {} plug) t := by
+  unfold dumpOf
+  rw [processAll_forest_K R' {} plug (by decide +kernel) (by decide +kernel),
+    processAll_forest_K R {} plug (by decide +kernel) (by decide +kernel),
+    Lemmas.IncludeDump.processAll_reg, Lemmas.IncludeDump.processAll_reg]
+  decide +kernel
+end Ex4
+
+/-- `IncludeEqInlineAugments` on `Ex4`, with its hypotheses shown to hold (`Ex4.isSplit`,
+`Ex4.noLeftover`, no deviation statement) and the conclusion kernel-evaluated. -/
+theorem include_eq_inline_augments_example :
+    IsSplitOf Ex4.sp Ex4.R Ex4.R' Ex.plug Ex.plug ∧ (∀ x ∈ Ex4.R.mods, x.stmt.all "deviation" = []) ∧
+    Lemmas.IncludeAugOrder.NoLeftover Ex4.R {} Ex.plug ∧ IncludeEqInlineAugments Ex4.sp Ex4.R Ex4.R' {} Ex.plug Ex.plug := by
+  refine ⟨Ex4.isSplit, ?_, Ex4.noLeftover, fun _ _ _ => ⟨Ex4.split_clean, Ex4.split_dump⟩⟩
+  intro x hx
+  rcases Ex4.mem_R hx with rfl | rfl | rfl <;> rfl
+
+-- the grafted nodes in the split module's tree: `y` below `keep` (from `ma`), `z` below it (from `mb`)
+open Goyang.Lemmas.IncludeAugK in
+example : ((processAll Ex4.R' {} Ex.plug).forest.tree? 2).map
+      (fun t => t.dir.map fun c => (c.name, c.dir.map fun g => (g.name, g.dir.map (·.name)))) =
+    some [("ch", [("x", [])]), ("keep", [("k", []), ("y", ["z"])])] := by
+  rw [processAll_forest_K Ex4.R' {} Ex.plug (by decide +kernel) (by decide +kernel)]; decide +kernel
+
+/-- The hypotheses of `include_augment_loop_order` / `include_augment_loop_clean_iff` hold of `Ex4`. -/
+example : Lemmas.Fuel.LoadedShape Ex4.R' ∧ Lemmas.Bridge.AugPosDistinct Ex4.R' := by decide +kernel
 
 end Goyang.Props.C13Include
